@@ -109,8 +109,10 @@ def make_judges(ctx):
         except Unsupported as e:
             ctx.skip('write:' + str(e))
             return
-        if si is None or si.post is None or si.is_complex or si.post.is_complex:
+        if si is None or si.post is None:
             return
+        if (si.is_complex or si.post.is_complex) and (si.index is not None or not si.is_complex or si.fxp_source):
+            return      # (complex values: whole-object writes of a complex value only; every component counts, each condition is reported once)
         post = si.post
         why = in_core_domain(si, post, allow_big_float_saturate=False)
         if why == 'input magnitude outside the core domain' and _pyint_values(si.carrier):
@@ -147,6 +149,8 @@ def make_judges(ctx):
             finally:
                 si.values = keep
         judge_write(ev, kind, pre_status, post, over, under, inexact, rank, check_callbacks=(ev.op != '__init__' and has_recorder(ev.receiver) > 0), alt=alt)
+        if si.is_complex:
+            ctx.floor_hit(('complex-write-judged',))
 
     def resize_judge(ev):
         if ev.op != 'resize' or ev.exc is not None or ev.kind != 'method':
@@ -271,7 +275,7 @@ def floors(tier):
     cells += [('callbacks', k) for k in ('write', 'indexed', 'resize')] + [('callbacks-changed',)]
     cells += [('reset', True), ('propagation', 'binary'), ('propagation', 'function'), ('propagation', 'numpy'), ('propagation', 'method'),
               ('propagation', 'Fxp(x)'), ('propagation', 'Fxp(x, like=)'), ('huge-integer-write',), ('propagation-workload', 'configured-output'),
-              ('reduction-flags', 'beyond-int64'), ('reduction-flags', 'moderate')]
+              ('reduction-flags', 'beyond-int64'), ('reduction-flags', 'moderate'), ('complex-write-workload',), ('complex-write-judged',)]
     return cells
 
 
@@ -292,6 +296,8 @@ def cases(tier, seed):
         yield {'k': 'propagate', 'i': i}
     for i in range(60 if tier == 'quick' else 1500):
         yield {'k': 'reduce', 'i': i}
+    for i in range(150 if tier == 'quick' else 3000):
+        yield {'k': 'complex', 'i': i}
 
 
 def _try(f):
@@ -412,6 +418,39 @@ def run_case(case, ctx):
                 _try(lambda: x.resize(fd[0], fd[1], fd[2]))
             else:
                 x.get_val()
+        return
+    if k == 'complex':
+        # whole-object writes of complex values into an object with a recording callback: both components out of range (on the same side, on
+        # opposite sides), one of them, none; inexact components
+        rng = ctx.rng_for('complex', case['i'])
+        s, w, nf = G.core_format(rng, max_word=30)
+        nf = max(0, min(nf, w))
+        r, o = G.MODES[case['i'] % 10]
+        lo, hi = R.code_range(s, w)
+        lsb = R.lsb(nf)
+
+        def comp(kind):
+            if kind == 'over':
+                return float((hi + rng.randint(1, 50)) * lsb)
+            if kind == 'under':
+                return float((lo - rng.randint(1, 50)) * lsb)
+            if kind == 'inexact':
+                return float((rng.randint(lo, hi - 1) + F(1, 4)) * lsb)
+            return float(rng.randint(lo, hi) * lsb)
+        arr = case['i'] % 3 == 0
+        x = Fxp(np.zeros(2, dtype=complex) if arr else 0j, s, w, nf, rounding=r, overflow=o)
+        x.callbacks.append(rec)
+        for step in range(rng.randint(1, 4)):
+            kinds = [rng.choice(['over', 'under', 'in', 'in', 'inexact']) for _ in range(4)]
+            if step == 0:
+                kinds[:2] = rng.choice([['over', 'over'], ['under', 'under'], ['over', 'under'], ['over', 'in'], ['in', 'under']])
+            v = [complex(comp(kinds[0]), comp(kinds[1])), complex(comp(kinds[2]), comp(kinds[3]))] if arr else complex(comp(kinds[0]), comp(kinds[1]))
+            if arr and rng.random() < 0.5:
+                v = np.array(v)
+            _try(lambda: x(v) if rng.random() < 0.5 else x.set_val(v))
+            if rng.random() < 0.3:
+                x.reset()
+        ctx.floor_hit(('complex-write-workload',))
         return
     if k == 'propagate':
         fx = G.conventional_format(rng, 3, 12)
